@@ -48,7 +48,7 @@ func runC07(c PairCase, o *run.Obs) error {
 	}
 	w := p.w
 	nOld, err1 := nodeSet(w, p.oldSR)
-	nNew, err2 := nodeSet(w, p.newSR)
+	nNew, err2 := nodeSet(p.wNew, p.newSR)
 	if err1 != nil || err2 != nil {
 		o.Label("aborted:root-not-complete(C03)")
 		return nil
@@ -95,7 +95,7 @@ func runC07(c PairCase, o *run.Obs) error {
 	}
 	replica.Put(ref.NodeName([]byte("unrelated")), []byte("unrelated"))
 	for name := range added {
-		b, _ := w.Store.Peek(name)
+		b, _ := p.wNew.Store.Peek(name)
 		replica.Put(name, b)
 	}
 	got, err := core.ReachableIn(w.Cfg, core.RootOf(p.newSR.Root).Link, replica.Peek)
